@@ -192,7 +192,57 @@ type zzProg struct {
 
 var zzWidths = []int{1, 8, 13, 17} // inside a byte, ends on a boundary, crosses one, crosses two
 
-func zzW(name string) int { return zzWidths[vrt.Choice(name, len(zzWidths))] }
+func zzW(name string) int { return zzWidths[zzC(name, len(zzWidths))] }
+
+// parameter choices of a program run; with zzMemoReplay the recorded values are
+// returned again (a second run of the same program with the same parameters)
+var zzMemo map[string]int
+var zzMemoReplay bool
+var zzMemoCnt = map[string]int{}
+
+// zzKey numbers repeated uses of a name within one run.
+func zzKey(name string) string {
+	k := zzMemoCnt[name]
+	zzMemoCnt[name] = k + 1
+	if k == 0 {
+		return name
+	}
+	return name + "#" + string(rune('0'+k))
+}
+
+func zzC(name0 string, n int) int {
+	name := name0
+	if zzMemo != nil {
+		name = zzKey(name0)
+	}
+	if zzMemoReplay {
+		if v, ok := zzMemo[name]; ok {
+			return v
+		}
+	}
+	v := vrt.Choice(name0, n)
+	if zzMemo != nil {
+		zzMemo[name] = v
+	}
+	return v
+}
+
+func zzR(name0 string, lo, hi int) int {
+	name := name0
+	if zzMemo != nil {
+		name = zzKey(name0)
+	}
+	if zzMemoReplay {
+		if v, ok := zzMemo[name]; ok {
+			return v
+		}
+	}
+	v := vrt.IntRange(name0, lo, hi)
+	if zzMemo != nil {
+		zzMemo[name] = v
+	}
+	return v
+}
 
 func zzFU(d *D, rec *[]zzRec, name string, w int) uint64 {
 	p := d.Pos()
@@ -214,7 +264,7 @@ func zzPrograms() []zzProg {
 		{name: "flat", fn: func(d *D, rec *[]zzRec) {
 			zzFU(d, rec, "a", zzW("w1"))
 			d.FieldS("b", zzW("w2"))
-			d.FieldRawLen("c", int64([]int{0, 5, 9}[vrt.Choice("rawLen", 3)]))
+			d.FieldRawLen("c", int64([]int{0, 5, 9}[zzC("rawLen", 3)]))
 			d.FieldBool("d")
 		}},
 		{name: "nested", fn: func(d *D, rec *[]zzRec) {
@@ -222,7 +272,7 @@ func zzPrograms() []zzProg {
 				zzFU(d, rec, "x", zzW("w1"))
 				d.FieldU8("y")
 			})
-			n := vrt.IntRange("count", 0, 3)
+			n := zzR("count", 0, 3)
 			d.FieldArray("items", func(d *D) {
 				for i := 0; i < n; i++ {
 					d.FieldStruct("item", func(d *D) {
@@ -230,38 +280,38 @@ func zzPrograms() []zzProg {
 					})
 				}
 			})
-			d.FieldStructNArray("pairs", "pair", int64(vrt.IntRange("pairs", 0, 2)), func(d *D) {
+			d.FieldStructNArray("pairs", "pair", int64(zzR("pairs", 0, 2)), func(d *D) {
 				d.FieldU8("k")
 			})
 		}},
 		{name: "seek", fn: func(d *D, rec *[]zzRec) {
 			d.FieldU8("a")
-			d.SeekRel(int64([]int{-8, -3, 0, 5, 16, 100}[vrt.Choice("delta", 6)]))
+			d.SeekRel(int64([]int{-8, -3, 0, 5, 16, 100}[zzC("delta", 6)]))
 			zzFU(d, rec, "b", zzW("w1"))
-			d.SeekAbs(int64([]int{0, 3, 24, 40}[vrt.Choice("abs", 4)]))
+			d.SeekAbs(int64([]int{0, 3, 24, 40}[zzC("abs", 4)]))
 			d.FieldU8("c")
-			d.SeekAbs(int64([]int{1, 17}[vrt.Choice("peekAt", 2)]), func(d *D) { d.FieldU("peek", 3) })
+			d.SeekAbs(int64([]int{1, 17}[zzC("peekAt", 2)]), func(d *D) { d.FieldU("peek", 3) })
 			d.FieldU("e", 2)
 		}},
 		{name: "framed", fn: func(d *D, rec *[]zzRec) {
 			d.FieldU8("a")
-			fl := int64([]int{0, 8, 11, 24}[vrt.Choice("frameLen", 4)])
+			fl := int64([]int{0, 8, 11, 24}[zzC("frameLen", 4)])
 			d.FramedFn(fl, func(d *D) {
 				d.FieldU8("f1")
 				zzFU(d, rec, "f2", zzW("w1"))
 			})
 			d.FieldU8("after")
-			d.LimitedFn(int64([]int{0, 4, 16}[vrt.Choice("limit", 3)]), func(d *D) {
+			d.LimitedFn(int64([]int{0, 4, 16}[zzC("limit", 3)]), func(d *D) {
 				d.FieldU("l1", 4)
 			})
-			d.RangeFn(int64([]int{0, 5, 30}[vrt.Choice("rangeAt", 3)]), 9, func(d *D) {
+			d.RangeFn(int64([]int{0, 5, 30}[zzC("rangeAt", 3)]), 9, func(d *D) {
 				d.FieldStruct("r", func(d *D) { d.FieldU("r1", 9) })
 			})
 		}},
 		{name: "ranges", fn: func(d *D, rec *[]zzRec) {
 			d.FieldU8("a")
-			first := int64([]int{0, 3, 12, 30}[vrt.Choice("first", 4)])
-			n := int64([]int{0, 1, 8, 13}[vrt.Choice("n", 4)])
+			first := int64([]int{0, 3, 12, 30}[zzC("first", 4)])
+			n := int64([]int{0, 1, 8, 13}[zzC("n", 4)])
 			if first+n <= d.Len() { // FieldRangeFn precondition: the caller picks a range inside the buffer
 				d.FieldRangeFn("picked", first, n, func() *Value { return &Value{V: &scalar.Uint{Actual: 1}} })
 			}
@@ -274,15 +324,15 @@ func zzPrograms() []zzProg {
 		{name: "subformat", fn: func(d *D, rec *[]zzRec) {
 			d.FieldU("a", 3)
 			w := zzW("w1")
-			switch vrt.Choice("how", 4) {
+			switch zzC("how", 4) {
 			case 0:
 				d.FieldFormat("f", zzSubFormat(w), nil)
 			case 1:
-				d.FieldFormatLen("f", int64([]int{8, 12, 40}[vrt.Choice("len", 3)]), zzSubFormat(w), nil)
+				d.FieldFormatLen("f", int64([]int{8, 12, 40}[zzC("len", 3)]), zzSubFormat(w), nil)
 			case 2:
-				d.FieldFormatRange("f", int64([]int{0, 5}[vrt.Choice("at", 2)]), int64([]int{8, 30}[vrt.Choice("len", 2)]), zzSubFormat(w), nil)
+				d.FieldFormatRange("f", int64([]int{0, 5}[zzC("at", 2)]), int64([]int{8, 30}[zzC("len", 2)]), zzSubFormat(w), nil)
 			case 3:
-				d.FieldFormatOrRawLen("f", int64([]int{4, 16}[vrt.Choice("len", 2)]), zzSubFormat(w), nil)
+				d.FieldFormatOrRawLen("f", int64([]int{4, 16}[zzC("len", 2)]), zzSubFormat(w), nil)
 			}
 			d.FieldU("z", 2)
 		}},
@@ -292,10 +342,10 @@ func zzPrograms() []zzProg {
 			if zzConcreteData {
 				inner = []byte{0x5a, 0xc3, 0x0f}
 			}
-			ibits := int64(vrt.IntRange("innerBits", 0, 24))
+			ibits := int64(zzR("innerBits", 0, 24))
 			br := bitio.NewBitReader(inner, ibits)
 			zzInnerBuf, zzInnerBits = inner, ibits
-			switch vrt.Choice("how", 4) {
+			switch zzC("how", 4) {
 			case 3:
 				d.FieldArrayRootBitBufFn("unpackedArray", br, func(d *D) {
 					d.FieldU("e", zzW("w1"))
@@ -336,25 +386,25 @@ func zzPrograms() []zzProg {
 			place(d, "p")
 			d.FieldStruct("s", func(d *D) {
 				place(d, "q")
-				if vrt.Choice("third", 2) == 1 {
+				if zzC("third", 2) == 1 {
 					place(d, "r")
 				}
 			})
 		}},
 		{name: "rootarray", rootArray: true, fn: func(d *D, rec *[]zzRec) {
 			// a format whose root is an array: gap fields are appended to the array
-			n := vrt.IntRange("count", 0, 2)
+			n := zzR("count", 0, 2)
 			for i := 0; i < n; i++ {
 				d.FieldStruct("elem", func(d *D) { d.FieldU8("v") })
 			}
-			if vrt.Choice("skip", 2) == 1 {
+			if zzC("skip", 2) == 1 {
 				d.SeekRel(5)
 				d.FieldU("late", 3)
 			}
 		}},
 		{name: "errors", fn: func(d *D, rec *[]zzRec) {
 			d.FieldU8("a")
-			switch vrt.Choice("failure", 4) {
+			switch zzC("failure", 4) {
 			case 0:
 				d.FieldStruct("s", func(d *D) {
 					d.FieldU8("x")
